@@ -136,6 +136,16 @@ def run(ctx):
     push = f.calls('parsec_list_nolock_push_back')
     rc.expect(len(push) == 1 and any(l.endswith('future_lock') for l in (ls.must_before(push[0]) or ())), 'dc:push-unlocked', push[0].loc if push else f.where(),
               'new nested future must be appended to nested_futures before the unlock', note='nested future appended under lock')
+    # the decision "no nested future matches" (end of the list walk) and the insertion of the new one
+    # must be one critical section, otherwise two threads create two futures for one shape
+    walk_loads = [l for l in f.loads() if l.e.k == 'mem' and l.e.n == 'nested_futures' and f.in_loop(l.block)]
+    unlocks = f.calls('parsec_atomic_unlock')
+    if push and walk_loads:
+        gap = [u_ for u_ in unlocks for l in walk_loads if f.reaches(l.point, u_.point, acyclic=True) and f.reaches(u_.point, push[0].point, acyclic=True)]
+        rc.expect(not gap, 'dc:lookup-insert-split', (gap or push)[0].loc, 'future_lock released between the unsuccessful lookup in nested_futures and the insertion of the new nested future',
+                  note='lookup miss and insertion in one critical section')
+    else:
+        raise AnalysisBroken('get_or_trigger: nested list walk / push anchors missing')
     f = u2.func('parsec_datacopy_future_set'); ctx.functions_analysed.add(f.name)
     td = [s for s in f.stores() if s.lhs.k == 'mem' and s.lhs.n == 'tracked_data']
     st = status_or(f, C)
